@@ -456,3 +456,15 @@ pub fn native_display_and_record() {
         check(&g);
     }
 }
+
+/// the statement between the side field and the castling field of Game::new (slice verif_fen_side_key):
+/// the side key enters the hash exactly when Black is to move
+#[cfg_attr(kani, kani::proof)]
+#[cfg_attr(verif_replay, test)]
+pub fn fen_side_key_contract() {
+    let white = nd::bool();
+    let h = nd::u64();
+    let got = Game::verif_fen_side_key(mk::player(white), h);
+    assert!(got == h ^ (if white { 0 } else { spec::SIDE_KEY }), "C04: the importer does not hash the side to move with the published side key");
+    vcover!(!white, "black to move reachable");
+}
